@@ -631,6 +631,13 @@ theorem step_waiters (s : State) (op : Op) (h : Waiters s) : Waiters (step s op)
     split
     · exact (h.mono (setConn_wmono s c _)).mono (WMono.of_eq rfl rfl rfl rfl)
     · exact h
+  | connFail c =>
+    simp only [step]
+    split
+    · split
+      · exact (h.mono (setConn_wmono s c _)).mono (WMono.of_eq rfl rfl rfl rfl)
+      · exact h
+    · exact h
   | run => exact runAll_waiters _ s h
   | tick ms => exact h.mono (WMono.of_eq rfl rfl rfl rfl)
   | mark => exact h
